@@ -705,3 +705,163 @@ Proof.
     + cbn [cbreaks]. rewrite Be. unfold stc. cbn [cbreaks]. rewrite Bb. exact B1.
     + cbn [csym]. rewrite Se. exact Sc.
 Qed.
+
+(* ---------- every statement of the fragment ---------- *)
+Theorem lay_all :
+  (forall s, wfrag_stmt s = true -> forall st st', compile_stmt true s st = COk st' ->
+             gsym (csym st) -> has_gb (csym st) -> LAYOK s st st') /\
+  (forall l, wfrag_slist l = true -> slist_lay l) /\
+  (forall l : clist, True) /\
+  (forall o, match o with NoElse => True | Else b => wfrag_slist b = true -> slist_lay b end).
+Proof.
+  apply stmt_mutind; try (intros; exact I).
+  - intros n e HF. discriminate.
+  - intros target e HF st st' HC HG HGB. destruct target; try discriminate HF. apply (lay_assign_ok n e st st' HF HC HGB).
+  - intros c b Hb elifs _ els Ho HF st st' HC HG HGB. cbn [wfrag_stmt] in HF. destruct elifs; [|discriminate].
+    apply andb_true_iff in HF. destruct HF as [HF F3]. apply andb_true_iff in HF. destruct HF as [F1 F2].
+    apply (lay_if_ok c b els st st' F1 (Hb F2)); auto. destruct els; [exact I|apply Ho; exact F3].
+  - intros c b Hb HF st st' HC HG HGB. cbn [wfrag_stmt] in HF. apply andb_true_iff in HF. destruct HF as [F1 F2].
+    apply (lay_while_ok c b st st' F1 (Hb F2) HC HG HGB).
+  - intros lv a b c d _ HF. discriminate.
+  - intros lv t e b _ HF. discriminate.
+  - intros HF. discriminate.
+  - intros _ st st' HC _ _. cbn [compile_stmt] in HC. inversion HC; subst.
+    exists []. split; [constructor|]. split; [rewrite app_nil_r; reflexivity|]. split; reflexivity.
+  - intros b _ HF. discriminate.
+  - intros w HF. discriminate.
+  - intros _ st st' HC _ _. cbn [body_of] in HC. inversion HC; subst.
+    exists []. split; [constructor|]. split; [rewrite app_nil_r; reflexivity|]. split; reflexivity.
+  - intros s Hs t Ht HF st st' HC HG HGB. cbn [wfrag_slist] in HF. apply andb_true_iff in HF. destruct HF as [F1 F2].
+    cbn [body_of] in HC. destruct (compile_stmt true s st) as [st1|] eqn:E1; [|discriminate]. cbn [bind] in HC.
+    destruct (Hs F1 st st1 E1 HG HGB) as (seg1 & L1 & C1 & B1 & S1). rewrite compile_slist_body in HC.
+    destruct (Ht F2 st1 st' HC) as (seg2 & L2 & C2 & B2 & S2); [rewrite S1; exact HG|rewrite S1; exact HGB|].
+    exists (seg1 ++ seg2). split; [|split; [rewrite C2, C1, app_assoc; reflexivity|split; congruence]].
+    eapply layl_cons; eauto. rewrite C1, app_length, Nat2N.inj_add. reflexivity.
+  - intros b Hb. exact Hb.
+Qed.
+
+(* ====================================================================== *)
+(* Part 3: whole programs, from NewCompiler and NewVM                      *)
+(* ====================================================================== *)
+Definition psfrag_stmt (s : stmt) : bool := match s with SDecl _ e => efrag e | _ => wfrag_stmt s end.
+Fixpoint psfrag (p : slist) : bool := match p with SNil => true | SCons s t => psfrag_stmt s && psfrag t end.
+
+Definition STEP (s : stmt) (st st' : cstate) : Prop :=
+  forall fuel env env1, exec_s fuel s env = Some env1 ->
+  top_ok st' /\ index (cur (csym st)) <= index (cur (csym st')) /\
+  exists seg newc, ccode st' = ccode st ++ seg /\ cconsts st' = cconsts st ++ newc /\
+    forall p vs pre post,
+      pcode p = pre ++ seg ++ post -> List.length pre = List.length (ccode st) -> consts_of p st' ->
+      ip vs = N.of_nat (List.length pre) -> ostack vs = [] -> locals vs = [] ->
+      index (cur (csym st')) <= N.of_nat (List.length (globals vs)) ->
+      globals_hold env (csym st) (globals vs) -> sdepth s <= StackSize ->
+      exists vs', reaches p vs vs' /\ ip vs' = ip vs + N.of_nat (List.length seg) /\ ostack vs' = [] /\ locals vs' = [] /\
+                  List.length (globals vs') = List.length (globals vs) /\ globals_hold env1 (csym st') (globals vs').
+
+Lemma top_static st : top_ok st -> sym_static (csym st) /\ slots_distinct (csym st).
+Proof.
+  intros (HO & HI & _). split.
+  - intros n y HR. apply (sym_top_globals _ HO HI n y HR).
+  - intros n1 n2 y1 y2 H1 H2 HE. apply (top_distinct (csym st) n1 n2 y1 y2 HO HI H1 H2 HE).
+Qed.
+
+Lemma step_decl n e st st' : efrag e = true -> compile_stmt true (SDecl n e) st = COk st' -> top_ok st -> STEP (SDecl n e) st st'.
+Proof.
+  intros HF HC HT fuel env env1 HX. destruct fuel as [|f]; [discriminate|]. cbn [exec_s] in HX.
+  destruct (stmt_frag_ok (SDecl n e) env env1 st st' HF HC HT HX) as (T1 & M1 & seg & newc & C & K & D).
+  split; [exact T1|]. split; [exact M1|]. exists seg, newc. split; [exact C|]. split; [exact K|].
+  intros p vs pre post HP _ (more & HK) HI HO HL HIdx HG HD.
+  destruct (D p vs more pre post HP HK HI HO HIdx HG) as (vs' & R & I & O & L & G & GH).
+  - rewrite HL. simpl. cbn [sdepth] in HD. exact HD.
+  - exists vs'. repeat split; auto. congruence.
+Qed.
+
+Lemma step_ctl s st st' : wfrag_stmt s = true -> compile_stmt true s st = COk st' -> top_ok st -> STEP s st st'.
+Proof.
+  intros HF HC HT fuel env env1 HX.
+  destruct (top_gsym st HT) as [HG HGB]. destruct (top_static st HT) as [HSS HSD].
+  destruct (proj1 lay_all s HF st st' HC HG HGB) as (seg & L & C & B & S).
+  destruct (proj1 lay_frame _ _ _ _ L) as [(newc & K) _].
+  split; [unfold top_ok; rewrite S; exact HT|]. split; [rewrite S; lia|].
+  exists seg, newc. split; [exact C|]. split; [exact K|].
+  intros p vs pre post HP HLen HK HI HO HL HIdx HGl HD.
+  assert (HM : mstate_ok (List.length (globals vs)) st env vs).
+  { repeat split; auto. intros m y HR. destruct (top_globals st HT m y HR) as [_ HI2]. rewrite S in HIdx. lia. }
+  destruct (proj1 (sim_all fuel) s st st' seg L _ env env1 HX p vs pre post HP HLen HK HI HM HSS HSD HD) as (vs' & R & I & (A1 & A2 & A3 & A4 & A5)).
+  exists vs'. repeat split; auto. rewrite S. exact A3.
+Qed.
+
+Lemma step_of_stmt s st st' : psfrag_stmt s = true -> compile_stmt true s st = COk st' -> top_ok st -> STEP s st st'.
+Proof.
+  intros HF HC HT. destruct s; try (apply step_ctl; assumption). apply (step_decl n e st st' HF HC HT).
+Qed.
+
+(* compile_correct for programs with control flow: top-level declarations,
+   assignments to globals, if / else, while — nested.  If the compiler
+   succeeds and the fuel-indexed semantics of the program is defined, the VM
+   model started by NewVM reaches the end of the code with an empty operand
+   stack, halts, and every global slot holds the value of the semantics. *)
+Lemma prog_sem p : forall fuel env env' st st',
+  psfrag p = true -> compile_slist true p st = COk st' -> top_ok st -> exec_l fuel p env = Some env' ->
+  top_ok st' /\ index (cur (csym st)) <= index (cur (csym st')) /\
+  exists seg newc, ccode st' = ccode st ++ seg /\ cconsts st' = cconsts st ++ newc /\
+    forall pr vs pre post,
+      pcode pr = pre ++ seg ++ post -> List.length pre = List.length (ccode st) -> consts_of pr st' ->
+      ip vs = N.of_nat (List.length pre) -> ostack vs = [] -> locals vs = [] ->
+      index (cur (csym st')) <= N.of_nat (List.length (globals vs)) ->
+      globals_hold env (csym st) (globals vs) -> ldepth p <= StackSize ->
+      exists vs', reaches pr vs vs' /\ ip vs' = ip vs + N.of_nat (List.length seg) /\ ostack vs' = [] /\ locals vs' = [] /\
+                  List.length (globals vs') = List.length (globals vs) /\ globals_hold env' (csym st') (globals vs').
+Proof.
+  induction p as [|s t IH]; intros fuel env env' st st' HF HC HT HX.
+  - destruct fuel as [|f]; [discriminate|]. cbn [exec_l] in HX. inversion HX; subst env'.
+    simpl in HC. inversion HC; subst st'. split; [exact HT|]. split; [lia|].
+    exists [], []. split; [rewrite app_nil_r; reflexivity|]. split; [rewrite app_nil_r; reflexivity|].
+    intros pr vs pre post _ _ _ HI HO HL _ HG _. exists vs. split; [apply reaches_refl|]. simpl. repeat split; auto. lia.
+  - destruct fuel as [|f]; [discriminate|]. cbn [exec_l] in HX.
+    destruct (exec_s f s env) as [env1|] eqn:HX1; [|discriminate].
+    cbn [psfrag] in HF. apply andb_true_iff in HF. destruct HF as [F1 F2]. cbn [compile_slist] in HC.
+    destruct (compile_stmt true s st) as [st1|] eqn:E1; [|discriminate]. cbn [bind] in HC.
+    destruct (step_of_stmt s st st1 F1 E1 HT f env env1 HX1) as (T1 & M1 & seg1 & c1 & C1 & K1 & D1).
+    destruct (IH f env1 env' st1 st' F2 HC T1 HX) as (T2 & M2 & seg2 & c2 & C2 & K2 & D2).
+    split; [exact T2|]. split; [lia|]. exists (seg1 ++ seg2), (c1 ++ c2).
+    split; [rewrite C2, C1, app_assoc; reflexivity|]. split; [rewrite K2, K1, app_assoc; reflexivity|].
+    intros pr vs pre post HP HLen HK HI HO HL HIdx HG HD. cbn [ldepth] in HD.
+    destruct (D1 pr vs pre (seg2 ++ post)) as (vs1 & R1 & I1 & O1 & L1 & G1 & GH1); auto.
+    { rewrite HP, <- !app_assoc. reflexivity. }
+    { apply (consts_of_prefix pr st1 st' c2 K2 HK). }
+    { lia. }
+    { pose proof (N.le_max_l (sdepth s) (ldepth t)). lia. }
+    destruct (D2 pr vs1 (pre ++ seg1) post) as (vs2 & R2 & I2 & O2 & L2 & G2 & GH2); auto.
+    { rewrite HP, <- !app_assoc. reflexivity. }
+    { rewrite app_length, C1, app_length, HLen. reflexivity. }
+    { rewrite I1, HI, app_length. lia. }
+    { rewrite G1. exact HIdx. }
+    { pose proof (N.le_max_r (sdepth s) (ldepth t)). lia. }
+    exists vs2. split; [eapply reaches_trans; eauto|]. split; [rewrite I2, I1, app_length; lia|].
+    repeat split; auto. congruence.
+Qed.
+
+Theorem compile_correct_ctl : forall (p : slist) (st : cstate) (fuel : nat) (env' : genv),
+  psfrag p = true -> compile p = COk st -> exec_l fuel p (fun _ => None) = Some env' ->
+  ldepth p <= StackSize ->
+  let prog := program_of (bytecode_of st) in
+  exists s, reaches prog (vm_init prog) s /\
+            vm_step prog s = Halted s /\ ostack s = [] /\
+            forall n y v, st_resolve n (csym st) = Some y -> env' n = Some v ->
+                          nth_error (globals s) (N.to_nat (sidx y)) = Some v.
+Proof.
+  intros p st fuel env' HF HC HX HD prog. unfold compile, compile_program in HC.
+  assert (HT : top_ok cinit) by (split; [reflexivity|split; [apply inv_new|reflexivity]]).
+  destruct (prog_sem p fuel _ env' cinit st HF HC HT HX) as ((T1 & T2 & T3) & _ & seg & newc & C & K & D).
+  simpl in C, K.
+  destruct (D prog (vm_init prog) [] []) as (s & R & I & O & L & G & GH); auto.
+  - unfold prog, program_of, bytecode_of. cbn [pcode out_code]. rewrite C, app_nil_r. reflexivity.
+  - exists []. unfold prog, program_of, bytecode_of. cbn [pconsts out_consts]. rewrite app_nil_r. reflexivity.
+  - unfold prog, program_of, bytecode_of, vm_init, st_local_count. cbn [locals plcount out_lcount]. rewrite T3. reflexivity.
+  - unfold prog, program_of, bytecode_of, vm_init, st_global_count. cbn [globals pgcount out_gcount]. rewrite repeat_length. lia.
+  - intros n y v HR. discriminate.
+  - exists s. split; [exact R|]. split; [|split; [exact O|exact GH]].
+    unfold vm_step. rewrite I. unfold prog, program_of, bytecode_of. cbn [pcode out_code vm_init ip]. rewrite C.
+    simpl N.of_nat. rewrite N.add_0_l, Nat2N.id, skipn_all. reflexivity.
+Qed.
